@@ -264,6 +264,26 @@ def check_basic(res, name):
     res.nontriv(('basic', name))
 
 
+def _class_twins(a):
+    import copy
+    import regions as R
+    out = []
+    params = tuple(getattr(a, '_params', ()) or ())
+    if not params:
+        return out
+    for nm in sorted(dir(R)):
+        cls = getattr(R, nm)
+        if not (isinstance(cls, type) and issubclass(cls, R.Region)) or cls is type(a):
+            continue
+        if tuple(getattr(cls, '_params', ()) or ()) != params:
+            continue
+        try:
+            out.append(cls(**{p: copy.deepcopy(getattr(a, p)) for p in params}, meta=a.meta.copy(), visual=a.visual.copy()))
+        except Exception:      # noqa: BLE001 -- the other class does not accept these values (pixel vs sky coordinates)
+            continue
+    return out
+
+
 def check_cross(res, n1, n2):
     case = {'op': 'cross', 'a': n1, 'b': n2}
     a, b = pool.make(n1), pool.make(n2)
@@ -273,6 +293,18 @@ def check_cross(res, n1, n2):
     res.outcome(('cross', same))
     if not same:
         res.nontriv(('cross', n1, n2))
+    if same:
+        # every OTHER region class that takes the same parameter names, given a's own parameter values, meta and visual
+        for b2 in _class_twins(a):
+            _eq_calls(res, {'op': 'cross', 'a': n1, 'b': n1, 'twin': type(b2).__name__}, a, b2, False,
+                      f'{type(a).__name__}({n1}) vs a {type(b2).__name__} with the same parameter values, meta and visual')
+            res.axis('class_twin', f'{type(a).__name__}/{type(b2).__name__}')
+        if type(a).__name__.startswith('Compound'):
+            for t in _class_twins(a.region2):
+                b2 = type(a)(a.region1, t, a.operator, meta=a.meta.copy(), visual=a.visual.copy())
+                _eq_calls(res, {'op': 'cross', 'a': n1, 'b': n1, 'twin': 'compound/' + type(t).__name__}, a, b2, False,
+                          f'compound({n1}) vs the same compound with operand 2 as a {type(t).__name__} of the same parameter values')
+                res.axis('class_twin', f'compound:{type(a.region2).__name__}/{type(t).__name__}')
     # comparison with non-regions never raises and is False
     for other in (None, 5, 'circle', (1, 2)):
         res.transitions += 1
@@ -285,6 +317,49 @@ def check_cross(res, n1, n2):
         if e is not False and e is not NotImplemented or (n is not True and n is not NotImplemented):
             if bool(e) or not bool(n):
                 res.violation(ID, 'eq_wrong', {'op': 'cross', 'a': n1, 'b': repr(other)}, f'{type(a).__name__} == {other!r} gave {e!r}')
+
+
+# ---------------------------------------------- documented tolerance of pixel positions --
+PIX_SCALES = [1e-3, 1.0, 1e3, 3e4]
+# relative perturbation -> equal?  (documented: |a - b| <= 1e-8 + 1e-5 |b|; the values are far from the threshold at every scale)
+PIX_RELS = [(1e-7, True), (5e-6, True), (4e-5, False), (1e-3, False)]
+
+
+def check_pix_tolerance(res, name, scale=None, rel=None):
+    """Pixel-position parameters moved to every magnitude of PIX_SCALES and perturbed by every relative amount of
+    PIX_RELS: equal exactly when the documented tolerance (relative 1e-5, absolute 1e-8) says so."""
+    from regions import PixCoord
+    r0 = pool.make(name)
+    for f in list(getattr(r0, '_params', ()) or ()):
+        v = getattr(r0, f)
+        if not isinstance(v, PixCoord):
+            continue
+        for sc in PIX_SCALES:
+            if scale is not None and sc != scale:
+                continue
+            n = 1 if v.isscalar else len(v)
+            ux = sc * (1.2345 + 0.75 * np.arange(n))
+            uy = sc * (-0.789 - 1.25 * np.arange(n) ** 2)
+            for eps, expect in PIX_RELS:
+                if rel is not None and eps != rel:
+                    continue
+                case = {'op': 'pixtol', 'name': name, 'field': f, 'scale': sc, 'rel': eps}
+                res.evaluations += 1
+                a, b = pool.make(name), pool.make(name)
+                px, py = ux.copy(), uy.copy()
+                px[-1] = px[-1] * (1 + eps)
+                py[0] = py[0] * (1 - eps)
+                if v.isscalar:
+                    setattr(a, f, PixCoord(float(ux[0]), float(uy[0])))
+                    setattr(b, f, PixCoord(float(px[0]), float(py[0])))
+                else:
+                    setattr(a, f, PixCoord(ux, uy))
+                    setattr(b, f, PixCoord(px, py))
+                got = _eq_calls(res, case, a, b, expect, f'{type(a).__name__}.{f} at magnitude {sc:g} perturbed by {eps:g} relative '
+                                f'(documented tolerance: relative 1e-5, absolute 1e-8)')
+                res.outcome(('pixtol', sc, eps, got))
+                res.axis('pix_magnitude', f'{sc:g}')
+                res.nontriv(('pixtol', name, f, sc, eps))
 
 
 # ------------------------------------------------------------ copy(**changes) --
@@ -592,6 +667,8 @@ def run_shard(shard, tier, seed):
         n = shard['name']
         res.states += 1
         check_basic(res, n)
+        res.states += 1
+        check_pix_tolerance(res, n)
         for p in perturbations(n):
             res.states += 1
             check_perturbation(res, n, p[0])
@@ -622,6 +699,8 @@ def replay(case):
         check_perturbation(res, case['name'], case['label'])
     elif op == 'basic':
         check_basic(res, case['name'])
+    elif op == 'pixtol':
+        check_pix_tolerance(res, case['name'], case['scale'], case['rel'])
     elif op == 'cross':
         if case['b'] in NAMES:
             check_cross(res, case['a'], case['b'])
